@@ -358,6 +358,7 @@ func (fr *frame) applyContract(ct *Contract, callee *ssa.Function, sig *types.Si
 	res := fr.freshResults(sig, st, sanitizeLabel(ct.Key))
 	// effects (modifies items may mention the results, e.g. ghost state of a new object)
 	mctx := *ctx
+	mctx.old = pre
 	mctx.results = res
 	mctx.rtypes, mctx.rnames = resultTypes(sig)
 	if mctx.results == nil {
@@ -456,6 +457,26 @@ func (fr *frame) applyModSpec(m ModSpec, ctx *specCtx, st *State) {
 		}
 		fr.frameGhostWhole(vc.keyGhost(g), st)
 		vc.bump(st, vc.keyGhost(g))
+	case "ghostwhere":
+		g := fr.enc.db.Ghosts[m.Name]
+		if g == nil || g.Key == nil {
+			vc.warn("modifies: unknown ghost map %s", m.Name)
+			return
+		}
+		key := vc.keyGhost(g)
+		pred, err := ctx.regionPred(m, *g.Key)
+		if err != nil {
+			vc.warn("modifies %s: %v", m.Text, err)
+			fr.frameGhostWhole(key, st)
+			vc.bump(st, key)
+			return
+		}
+		// the frame of the caller: every key the callee may touch must be allowed
+		fr.frameGhostRegion(key, pred, *g.Key, st)
+		oldv := vc.cur(st, key)
+		nv := vc.bump(st, key)
+		q := "q!r"
+		vc.fact(fmt.Sprintf("(forall ((%s %s)) (! (=> (not %s) (= (select %s %s) (select %s %s))) :pattern ((select %s %s))))", q, *g.Key, pred(q), nv, q, oldv, q, nv, q))
 	case "ghostat":
 		g := fr.enc.db.Ghosts[m.Name]
 		if g == nil || g.Key == nil {
@@ -469,9 +490,22 @@ func (fr *frame) applyModSpec(m ModSpec, ctx *specCtx, st *State) {
 			return
 		}
 		key := vc.keyGhost(g)
-		fr.frameGhostAt(key, k.S, st)
+		cond := ""
+		if m.Cond != nil {
+			c, err := ctx.trBool(m.Cond)
+			if err != nil {
+				vc.warn("modifies %s: %v", m.Text, err)
+			} else {
+				cond = c
+			}
+		}
+		fr.frameGhostAt(key, k.S, st, cond)
 		fv := vc.freshConst("gh."+m.Name, g.Val)
-		vc.set(st, key, fmt.Sprintf("(store %s %s %s)", vc.cur(st, key), k.S, fv.S))
+		if cond != "" {
+			vc.set(st, key, ite(cond, fmt.Sprintf("(store %s %s %s)", vc.cur(st, key), k.S, fv.S), vc.cur(st, key)))
+		} else {
+			vc.set(st, key, fmt.Sprintf("(store %s %s %s)", vc.cur(st, key), k.S, fv.S))
+		}
 	case "field":
 		obj, err := ctx.tr(m.Expr)
 		if err != nil || obj.ty == nil {
@@ -776,10 +810,9 @@ func (fr *frame) ghostSelectSends(x *ssa.Select, st *State) {
 			// effects on ghost counters are merged conditionally
 			for k, v := range sub.ver {
 				if st.ver[k] != v {
+					prev := fr.vc().cur(st, k)
 					nv := fr.vc().bump(st, k)
-					old := fr.vc().cur(&State{base: st.base, ver: map[string]string{}}, k)
-					_ = old
-					fr.vc().fact(eq(nv, ite(eq(fr.tuples[x][0].S, fmt.Sprint(i)), v, nv)))
+					fr.vc().fact(eq(nv, ite(eq(fr.tuples[x][0].S, fmt.Sprint(i)), v, prev)))
 				}
 			}
 		}
@@ -792,7 +825,7 @@ func (fr *frame) chanEvent(ch ssa.Value, x ssa.Value, st *State) {
 	if g := fr.enc.db.Ghosts["chsent"]; g != nil && g.Key != nil {
 		key := fr.vc().keyGhostChan(g, ch.Type())
 		c := fr.val(ch)
-		fr.frameGhostAt(key, c.S, st)
+		fr.frameGhostAt(key, c.S, st, "")
 		fr.vc().set(st, key, fmt.Sprintf("(store %s %s (+ (select %s %s) 1))", fr.vc().cur(st, key), c.S, fr.vc().cur(st, key), c.S))
 	}
 	// resolved lazily by field name: see specs "ghost sent_<Type>_<field>"
@@ -828,14 +861,14 @@ func (fr *frame) frameGhostWhole(key string, st *State) {
 		return
 	}
 	for _, d := range e.declMods {
-		if (d.key == key || d.key == "*") && d.idx == "" {
+		if (d.key == key || d.key == "*") && d.idx == "" && d.pred == nil {
 			return
 		}
 	}
 	fr.oblige("frame", "", fr.nextAnchor("ghost"), st, "false", "ghost state "+key+" is modified but not listed in modifies", nil)
 }
 
-func (fr *frame) frameGhostAt(key, idx string, st *State) {
+func (fr *frame) frameGhostAt(key, idx string, st *State, cond string) {
 	e := fr.enc
 	if !e.frameCheck || unframedGhost[key] {
 		return
@@ -851,12 +884,39 @@ func (fr *frame) frameGhostAt(key, idx string, st *State) {
 		if d.key != key && d.key != "*" {
 			continue
 		}
+		if d.pred != nil {
+			alts = append(alts, d.pred(idx))
+			continue
+		}
 		if d.idx == "" {
 			return
 		}
 		alts = append(alts, eq(idx, d.idx))
 	}
 	goal := or(alts...)
+	if cond != "" {
+		goal = implies(cond, goal)
+	}
+	if k := fr.vc().kinds[key]; k != nil && k.Idx == SV {
+		// path-keyed state (the ghost file system): what counts is the net effect,
+		// so a key outside the frame may be written if every return finds it restored
+		// (e.g. a temp file created and removed again).  Checked at the end.
+		anchor := fr.anchorPrefix() + fr.nextAnchor("ghost")
+		reach := st.reach
+		pos := ""
+		if fr.curBlock != nil && fr.curIdx < len(fr.curBlock.Instrs) {
+			pos = e.prog.Fset.Position(instrPos(fr.curBlock.Instrs[fr.curIdx])).String()
+		}
+		run := func() {
+			e.restoreChecks = append(e.restoreChecks, restoreCheck{key: key, idx: idx, reach: reach, listed: goal, anchor: anchor, pos: pos})
+		}
+		if fr.deferFrame {
+			fr.pendingFrame = append(fr.pendingFrame, run)
+			return
+		}
+		run()
+		return
+	}
 	run := func() {
 		fr.oblige("frame", "", fr.nextAnchor("ghost"), st, goal, "ghost state "+key+" is modified at a key not listed in modifies", nil)
 	}
@@ -940,4 +1000,55 @@ func (fr *frame) anchorNameOf(c *ssa.CallCommon) string {
 		}
 	}
 	return anchorName(key, c)
+}
+
+// regionPred translates the predicate of "ghost g[q | pred]" into a function
+// from a key term to an SMT formula.
+func (c *specCtx) regionPred(m ModSpec, keySort Sort) (func(string) string, error) {
+	n := *c
+	n.bound = map[string]Term{}
+	for k, v := range c.bound {
+		n.bound[k] = v
+	}
+	bn := "q!" + m.Var
+	n.bound[m.Var] = Term{bn, keySort}
+	body, err := n.trBool(m.Expr)
+	if err != nil {
+		return nil, err
+	}
+	return func(idx string) string {
+		return fmt.Sprintf("(let ((%s %s)) %s)", bn, idx, body)
+	}, nil
+}
+
+// frameGhostRegion: a callee that may touch every key of a region is inside the
+// caller's frame only if the whole region is.
+func (fr *frame) frameGhostRegion(key string, pred func(string) string, keySort Sort, st *State) {
+	e := fr.enc
+	if !e.frameCheck || unframedGhost[key] {
+		return
+	}
+	var alts []string
+	for _, d := range e.declMods {
+		if d.key != key && d.key != "*" {
+			continue
+		}
+		if d.pred != nil {
+			alts = append(alts, d.pred("q!f"))
+			continue
+		}
+		if d.idx == "" {
+			return
+		}
+		alts = append(alts, eq("q!f", d.idx))
+	}
+	goal := fmt.Sprintf("(forall ((q!f %s)) (=> %s %s))", keySort, pred("q!f"), or(alts...))
+	run := func() {
+		fr.oblige("frame", "", fr.nextAnchor("ghost"), st, goal, "ghost state "+key+" may be modified in a region not covered by modifies", nil)
+	}
+	if fr.deferFrame {
+		fr.pendingFrame = append(fr.pendingFrame, run)
+		return
+	}
+	run()
 }
